@@ -8,6 +8,7 @@ arbitrary `sha`.  A stream is (key, iv, keystream offset).
 -/
 import TdModel.Model.C18
 import TdModel.Lemmas.C18
+import TdModel.Lemmas.C16
 
 namespace TdModel.C18
 open TdModel
@@ -114,6 +115,34 @@ connection delivers together with an error such as `io.EOF` — which `io.ReadFu
 are plaintext, so the stream theorems hold for such connections too. -/
 theorem read_decrypts_with_error (X : Cipher) (errLast : Bool) (s : Stream) (chunks : List Bytes) :
     readAllE X errLast s chunks = readAll X s chunks := readAllE_eq X errLast chunks s
+
+/-- **Obfuscated transport** (the "with obfuscation" case of C16, composed): a codec's frames written
+through the client's obfuscated2 writer in any write sizes, cut into reads in any way, and
+de-obfuscated by the accepting side decode to exactly the payloads sent.  (`Codec.Cfg.spec` is the
+codec configuration that `TdModel.C16.cfg_is_spec` ties to the source.) -/
+theorem obfuscated_codec_stream (ks : Bytes → Bytes → Nat → UInt8) (sha : Bytes → Bytes)
+    (init tag : Bytes) (dc : Int) (secret header : Bytes) (ck sk : Keys) (m : Meta)
+    (hi : init.length = 64) (ht : tag.length = 4)
+    (hc : clientKeys (xorWith ks) sha init tag dc secret = .ok (header, ck))
+    (hs : accept (xorWith ks) sha header secret = .ok (m, sk))
+    (crc : Bytes → Nat) (hcrc : ∀ x, crc x < 2 ^ 32) (k : Codec.Kind) (seq : Int) (rnd : Nat → Bytes)
+    (hrnd : ∀ i, (rnd i).length = 4) (ps : List Bytes)
+    (hps : ∀ p ∈ ps, 8 ≤ p.length ∧ p.length ≤ 2 ^ 24 ∧ p.length % 4 = 0)
+    (hlo : -2 ^ 31 ≤ seq) (hhi : seq + ps.length ≤ 2 ^ 31)
+    (writes chunks : List Bytes)
+    (hwrites : writes.flatten = Codec.encAll Codec.Cfg.spec crc k seq rnd ps)
+    (hwire : chunks.flatten = (writeAll (xorWith ks) ck.encrypt writes).1) :
+    let plain := (readAll (xorWith ks) sk.decrypt chunks).1
+    Codec.decAll Codec.Cfg.spec crc k (plain.length + 1) seq plain = (ps.map .frame, none) := by
+  have hplain := client_to_server_stream ks sha init tag dc secret header ck sk m hi ht hc hs writes chunks hwire
+  simp only [hplain, hwrites]
+  have hv : ∀ p ∈ ps, 0 < p.length ∧ p.length ≤ 16777216 ∧ (k ≠ .full → p.length % 4 = 0) ∧ p.length ≠ 4 := by
+    intro p hp
+    obtain ⟨h8, hmax, h4⟩ := hps p hp
+    have hmax' : p.length ≤ 16777216 := hmax
+    exact ⟨by omega, hmax', fun _ => h4, by omega⟩
+  have hlen := Codec.encAll_length_ge Codec.Cfg.spec crc k ps seq rnd (fun p hp => (hv p hp).1)
+  exact Codec.decAll_encAll crc k hcrc ps seq rnd _ hv (fun i => by rw [hrnd i]; omega) hlo hhi (by omega)
 
 /-- **Reserved prefixes.**  Whatever the random source delivers, a header that `Handshake` sends
 never starts with 0xef, never has one of the reserved first words, never has a zero second word. -/
